@@ -14,6 +14,7 @@ from simpleline.render.widgets import TextWidget
 from simpleline.errors import NothingScheduledError
 import simpleline.input.input_handler as ih
 
+threading.excepthook = lambda args: None       # a reader thread that dies (e.g. the loop is gone) is not reported on stderr
 class Blocked(BaseException): pass
 class Budget(BaseException): pass
 EVENT_BUDGET = 6000        # observations per session; beyond it the session is cut with outcome "fuel"
